@@ -457,6 +457,15 @@ def rewrite_tokens(src, modpath, report):
             bump('R13')
             k = j + 1
             continue
+        # R14  Decimal::from(E) -> Decimal::from_abort(E): a trait-impl method cannot carry the strict-mode
+        #      precondition (E < 2^96); the shim's inherent function is the same conversion with that contract
+        j = seq_match(toks, k, ['Decimal', '::', 'from', '('])
+        if j > 0:
+            f = next_code(toks, next_code(toks, k))
+            edits.append((toks[f].start, toks[f].end, 'from_abort'))
+            bump('R14')
+            k = j
+            continue
         # R11  &mut dyn Storage / &dyn Storage
         if t.text == 'dyn' and toks[next_code(toks, k)].text == 'Storage':
             j = next_code(toks, k)
@@ -709,6 +718,7 @@ class FnContract:
         self.attrs = []
         self.modes = None
         self.groups = []
+        self.strict = False
 
 
 def parse_kv(rest):
@@ -797,8 +807,10 @@ def parse_contracts(paths):
                     if not m:
                         raise GenError('%s: bad @group line' % where)
                     cur.groups.append({'name': m.group(1), 'labels': m.group(2).split(), 'atoms': [],
-                                       'mode': m.group(3) or 'both'})
+                                       'assume': [], 'mode': m.group(3) or 'both'})
                     textmode = 'atoms'
+                elif d == 'strict':
+                    cur.strict = True
                 elif d == 'fnlevel':
                     target = cur
                 elif d == 'attr':
@@ -813,7 +825,9 @@ def parse_contracts(paths):
             if textmode == 'clause':
                 clause.text += line + '\n'
             elif textmode == 'atoms':
-                if s:
+                if s.startswith('assume '):
+                    cur.groups[-1]['assume'].append(s[len('assume '):])
+                elif s:
                     cur.groups[-1]['atoms'].append(s)
             elif textmode == 'entry':
                 cur.entry += line + '\n'
@@ -927,7 +941,10 @@ def fn_edits(src, toks, f, c, mode, mapping, variant):
     pre = '/*@F %s*/ ' % variant['marker']
     attrs = ''.join('#[%s]\n' % a for a in c.attrs)
     if variant['external_body']:
-        attrs += '#[verifier::external_body] /*@SPLIT-ORIGINAL: every ensures clause is proved on the copies below*/\n'
+        if variant.get('note') == 'NOT-IN-STRICT':
+            attrs += '#[verifier::external_body] /*@NOT-IN-STRICT: contract proved in lenient mode, assumed here*/\n'
+        else:
+            attrs += '#[verifier::external_body] /*@SPLIT-ORIGINAL: every ensures clause is proved on the copies below*/\n'
     p = prev_code(toks, f.kw)
     item_start = toks[p].start if p >= 0 and toks[p].text == 'pub' else toks[f.kw].start
     if attrs:
@@ -942,9 +959,12 @@ def fn_edits(src, toks, f, c, mode, mapping, variant):
     else:
         edits.append((toks[f.rparen].end, toks[f.body_open].start, '%s\n' % spec))
     entry = rename_params(c.entry, mapping)
+    loops, closures = find_loops_and_closures(toks, f.body_open + 1, f.body_close)
+    if variant['external_body']:
+        # the body is not verified: no proof text, invariants or closure contracts are woven into it
+        return edits, item_start, len(loops), len(closures)
     if entry.strip():
         edits.append((toks[f.body_open].end, toks[f.body_open].end, '\n' + entry))
-    loops, closures = find_loops_and_closures(toks, f.body_open + 1, f.body_close)
     for ordinal, lc in c.loops.items():
         if ordinal >= len(loops):
             raise GenError('%s: contract names loop#%d but the body has %d loops (lost anchor)'
@@ -1004,7 +1024,13 @@ def weave(src, modpath, contracts, mode, report, used):
                            % (f.qname, len(c.params), len(f.params)))
         mapping = {a: b for a, b in zip(c.params, f.params) if a != b}
         groups = [g for g in c.groups if g['mode'] in ('both', mode)]
-        if not groups:
+        if mode == 'strict' and not c.strict:
+            e, _, nl, nc = fn_edits(src, toks, f, c, mode, mapping,
+                                    {'suffix': None, 'labels': None, 'extra_requires': [],
+                                     'external_body': True, 'marker': f.qname, 'note': 'NOT-IN-STRICT'})
+            edits.extend(e)
+            finfo['strict'] = False
+        elif not groups:
             e, _, nl, nc = fn_edits(src, toks, f, c, mode, mapping,
                                     {'suffix': None, 'labels': None, 'extra_requires': [],
                                      'external_body': False, 'marker': f.qname})
@@ -1024,7 +1050,7 @@ def weave(src, modpath, contracts, mode, report, used):
             rest = [l for l in ens_labels if l not in covered]
             allgroups = list(groups)
             if rest:
-                allgroups.append({'name': 'rest', 'labels': rest, 'atoms': [], 'mode': 'both'})
+                allgroups.append({'name': 'rest', 'labels': rest, 'atoms': [], 'assume': [], 'mode': 'both'})
             unknown = covered - set(ens_labels)
             if unknown:
                 raise GenError('%s: @group names unknown clause(s) %s' % (f.qname, sorted(unknown)))
@@ -1035,7 +1061,7 @@ def weave(src, modpath, contracts, mode, report, used):
             for g in allgroups:
                 k = len(g['atoms'])
                 for bits in range(1 << k):
-                    extra = []
+                    extra = list(g.get('assume', []))
                     for i, a in enumerate(g['atoms']):
                         extra.append(('(%s)' % a) if (bits >> i) & 1 else ('!(%s)' % a))
                     suffix = '__%s__%d' % (g['name'], bits)
